@@ -37,8 +37,20 @@ type selfPtr *selfPtr
 type selfQ *selfR
 type selfR *selfQ
 
+// a struct that embeds a marker struct: the marker is not one of its own fields
+type stParams struct {
+	am.Struct
+	A scn.T1
+}
+type stBundle struct {
+	stParams
+	B scn.T2
+}
+
 func tyName(t reflect.Type) string {
 	switch {
+	case t == reflect.TypeOf(stBundle{}):
+		return "SB"
 	case t == tErr:
 		return "E"
 	case t == reflect.TypeOf(selfPtr(nil)):
@@ -371,6 +383,10 @@ func obsC14(raw json.RawMessage) map[string]interface{} {
 		fn = func(selfPtr) {}
 	case "S6":
 		fn = func(selfQ, scn.T1) selfR { return nil }
+	case "S7":
+		fn = func(stBundle) {}
+	case "S8":
+		fn = func(scn.T1, stBundle) stBundle { return stBundle{} }
 	default:
 		inT := sideTypes(d.Inp)
 		outT := sideTypes(d.Out)
